@@ -38,19 +38,31 @@ theorem flags_consistent (cfg : Nat → Cfg) (ops : List Op) (m : Nat) :
 
 /-- Clause 3: whatever happened before, when the cleanup of a stop runs in `_mode_stopped_callback` (the stop's cleanup
 is still pending and no newer start of that mode is under way), no event handler, switch handler or delay owned by that
-mode is left.  (`_stopped` always leaves the cleanup pending: `stopped_leaves_cleanup_pending`.) -/
+mode is left, nothing a config player recorded under its context (light stack entries, show instances, enabled coils)
+and no delay or periodic task of one of its devices.  (`_stopped` always leaves the cleanup pending:
+`stopped_leaves_cleanup_pending`.) -/
 theorem registries_restored (cfg : Nat → Cfg) (ops : List Op) (m : Nat) (s' : St)
     (h : step (run (init cfg) ops) (.stoppedCb m) = some s')
     (ha : ((run (init cfg) ops).modes m).active = false) (hs : ((run (init cfg) ops).modes m).starting = false)
     (hc : ((run (init cfg) ops).modes m).cleanupPending = true) :
-    (∀ e ∈ s'.bus, e.owner ≠ m) ∧ (∀ e ∈ s'.sw, e.owner ≠ m) ∧ (∀ e ∈ s'.dl, e.owner ≠ m) := by
+    (∀ e ∈ s'.bus, e.owner ≠ m) ∧ (∀ e ∈ s'.sw, e.owner ≠ m) ∧ (∀ e ∈ s'.dl, e.owner ≠ m) ∧
+    (∀ e ∈ s'.fx, e.owner ≠ m) ∧ (∀ e ∈ s'.tm, e.owner ≠ m) := by
   have hI := run_inv _ ops (inv_init cfg)
+  have hI2 := run_inv2 _ ops (inv2_init cfg)
   simp only [step] at h
   split at h
   · cases h
   · cases h
     simp only [cbCore, cleanup, hc, if_true]
-    refine ⟨?_, ?_, ?_⟩ <;> intro e he heq <;> simp only [List.mem_filter] at he
+    refine ⟨?_, ?_, ?_, ?_, ?_⟩ <;> intro e he heq
+    rotate_left 3
+    · have := hI2.fxOwned e he
+      rw [heq] at this
+      simp [up, ha, hs] at this
+    · simp only [List.mem_filter] at he
+      have h2 := he.2
+      simp [ownedBy, heq] at h2
+    all_goals simp only [List.mem_filter] at he
     · have h2 := he.2
       have hcl : e.cls = .cfg ∨ e.cls = .turn := by
         cases hcl : e.cls <;> simp [ownedBy, heq, hcl] at h2 ⊢
@@ -86,33 +98,93 @@ theorem turn_end_handler_only_while_starting (cfg : Nat → Cfg) (ops : List Op)
 theorem others_untouched (st st' : St) (op : Op) (h : step st op = some st') :
     st'.bus.filter (fun e => e.owner != op.target) = st.bus.filter (fun e => e.owner != op.target) ∧
     st'.sw.filter (fun e => e.owner != op.target) = st.sw.filter (fun e => e.owner != op.target) ∧
-    st'.dl.filter (fun e => e.owner != op.target) = st.dl.filter (fun e => e.owner != op.target) :=
-  step_frame st st' op h
+    st'.dl.filter (fun e => e.owner != op.target) = st.dl.filter (fun e => e.owner != op.target) ∧
+    st'.fx.filter (fun e => e.owner != op.target) = st.fx.filter (fun e => e.owner != op.target) ∧
+    st'.tm.filter (fun e => e.owner != op.target) = st.tm.filter (fun e => e.owner != op.target) :=
+  ⟨(step_frame st st' op h).1, (step_frame st st' op h).2.1, (step_frame st st' op h).2.2,
+   (step_frame2 st st' op h).1, (step_frame2 st st' op h).2⟩
 
-/-- N cycles: any sequence of steps of mode `m` alone (any number of start/stop cycles, any user registrations, any
-interleaving) that ends with a completed stop (its cleanup running in the callback) leaves all three registries exactly as they were before, provided `m`
-owned nothing at the beginning. -/
+/-- Config players: after ANY op sequence — whenever the dispatcher of a queue event calls an entry of the mode's config
+players, also from a snapshot of the handler list taken before the mode stopped — nothing is recorded under the context of
+a mode that is neither starting nor active: what a play leaves behind (light stack entry, show instance, enabled coil)
+exists only between the mode's `start` (conditional entries are evaluated and played there) and its `_stopped`, which
+clears it; a stale call changes nothing, and a subscription of a mode that is not running cannot be re-evaluated (it was
+cancelled). -/
+theorem config_player_effects_die_with_mode (cfg : Nat → Cfg) (ops : List Op) (m : Nat)
+    (ha : ((run (init cfg) ops).modes m).active = false) (hs : ((run (init cfg) ops).modes m).starting = false) :
+    (∀ e ∈ (run (init cfg) ops).fx, e.owner ≠ m) ∧
+    (∀ id, step (run (init cfg) ops) (.cfgPlay m id) = some (run (init cfg) ops)) ∧
+    (∀ id on, step (run (init cfg) ops) (.cfgSub m id on) = none) := by
+  refine ⟨?_, ?_, ?_⟩
+  · intro e he heq
+    have := (run_inv2 _ ops (inv2_init cfg)).fxOwned e he
+    rw [heq] at this
+    simp [up, ha, hs] at this
+  · intro id; simp [step, ha]
+  · intro id on; simp [step, up, ha, hs]
+
+/-- the guard of `config_play_callback`: an entry called for a mode that is not active changes nothing at all -/
+theorem stale_config_play_has_no_effect (st : St) (m id : Nat) (ha : (st.modes m).active = false) :
+    step st (.cfgPlay m id) = some st := by
+  simp [step, ha]
+
+/-- Device-owned delay managers and periodic tasks (timer ticks and pauses, logic-block timeouts, sequence-shot timeouts,
+shot delay switches, ball-save timers): after ANY op sequence a pending one belongs to a mode whose devices are loaded
+(between the accepted start and the cleanup of the stop); a device of a mode that is not running cannot schedule one; and
+when the cleanup of a stop runs none of that mode is left (also part of `registries_restored`). -/
+theorem device_timers_die_with_mode (cfg : Nat → Cfg) (ops : List Op) (m : Nat) :
+    let s := run (init cfg) ops
+    (alive (s.modes m) = false → (∀ e ∈ s.tm, e.owner ≠ m) ∧ ∀ id, step s (.addTm m id) = none) ∧
+    (∀ s', step s (.stoppedCb m) = some s' → (s.modes m).cleanupPending = true → ∀ e ∈ s'.tm, e.owner ≠ m) := by
+  intro s
+  refine ⟨?_, ?_⟩
+  · intro hd
+    refine ⟨?_, ?_⟩
+    · intro e he heq
+      have := (run_inv2 _ ops (inv2_init cfg)).tmOwned e he
+      rw [heq] at this
+      rw [this] at hd; cases hd
+    · intro id
+      simp [step, hd]
+  · intro s' h hc e he heq
+    simp only [step] at h
+    split at h
+    · cases h
+    · cases h
+      simp only [cbCore, cleanup, hc, if_true, List.mem_filter] at he
+      have h2 := he.2
+      simp [ownedBy, heq] at h2
+
+/-- N cycles: any sequence of steps of mode `m` alone (any number of start/stop cycles, any user registrations, config-player
+plays — also stale ones —, device timers, any interleaving) that ends with a completed stop (its cleanup running in the
+callback) leaves all five registries exactly as they were before, provided `m` owned nothing at the beginning. -/
 theorem cycles_restore (cfg : Nat → Cfg) (pre ops : List Op) (m : Nat) (s' : St)
     (hclean : let s0 := run (init cfg) pre
-      (∀ e ∈ s0.bus, e.owner ≠ m) ∧ (∀ e ∈ s0.sw, e.owner ≠ m) ∧ (∀ e ∈ s0.dl, e.owner ≠ m))
+      (∀ e ∈ s0.bus, e.owner ≠ m) ∧ (∀ e ∈ s0.sw, e.owner ≠ m) ∧ (∀ e ∈ s0.dl, e.owner ≠ m) ∧
+      (∀ e ∈ s0.fx, e.owner ≠ m) ∧ (∀ e ∈ s0.tm, e.owner ≠ m))
     (htarget : ∀ op ∈ ops, op.target = m)
     (h : step (run (run (init cfg) pre) ops) (.stoppedCb m) = some s')
     (ha : ((run (run (init cfg) pre) ops).modes m).active = false)
     (hs : ((run (run (init cfg) pre) ops).modes m).starting = false)
     (hc : ((run (run (init cfg) pre) ops).modes m).cleanupPending = true) :
-    s'.bus = (run (init cfg) pre).bus ∧ s'.sw = (run (init cfg) pre).sw ∧ s'.dl = (run (init cfg) pre).dl := by
+    s'.bus = (run (init cfg) pre).bus ∧ s'.sw = (run (init cfg) pre).sw ∧ s'.dl = (run (init cfg) pre).dl ∧
+    s'.fx = (run (init cfg) pre).fx ∧ s'.tm = (run (init cfg) pre).tm := by
   have hrun : run (run (init cfg) pre) ops = run (init cfg) (pre ++ ops) := (run_append _ pre ops).symm
   rw [hrun] at h ha hs hc
-  obtain ⟨r1, r2, r3⟩ := registries_restored cfg (pre ++ ops) m s' h ha hs hc
+  obtain ⟨r1, r2, r3, r4, r5⟩ := registries_restored cfg (pre ++ ops) m s' h ha hs hc
   obtain ⟨f1, f2, f3⟩ := run_frame (run (init cfg) pre) ops m htarget
+  obtain ⟨f4, f5⟩ := run_frame2 (run (init cfg) pre) ops m htarget
   obtain ⟨g1, g2, g3⟩ := step_frame _ s' (.stoppedCb m) h
-  rw [← hrun] at g1 g2 g3
-  simp only [Op.target] at g1 g2 g3
-  obtain ⟨c1, c2, c3⟩ := hclean
-  refine ⟨?_, ?_, ?_⟩
+  obtain ⟨g4, g5⟩ := step_frame2 _ s' (.stoppedCb m) h
+  rw [← hrun] at g1 g2 g3 g4 g5
+  simp only [Op.target] at g1 g2 g3 g4 g5
+  obtain ⟨c1, c2, c3, c4, c5⟩ := hclean
+  refine ⟨?_, ?_, ?_, ?_, ?_⟩
   · rw [← filter_other_self s'.bus m r1, g1, f1, filter_other_self _ m c1]
   · rw [← filter_other_self s'.sw m r2, g2, f2, filter_other_self _ m c2]
   · rw [← filter_other_self s'.dl m r3, g3, f3, filter_other_self _ m c3]
+  · rw [← filter_other_self s'.fx m r4, g4, f4, filter_other_self _ m c4]
+  · rw [← filter_other_self s'.tm m r5, g5, f5, filter_other_self _ m c5]
 
 /-- Accepted requests make progress: an accepted start leaves `_started` enabled, which activates the mode; an
 accepted stop leaves `_stopped` enabled, which deactivates it and leaves `_mode_stopped_callback` enabled. -/
@@ -207,6 +279,35 @@ example :
     (let s := run (init exCfg) [.start 1 none false true, .started 1, .startedCb 1, .stop 1, .stopped 1,
         .start 1 none false true, .stoppedCb 1, .started 1, .startedCb 1]
      ((s.modes 1).active, (s.bus.filter (fun e => e.owner == 1 && e.cls == .own)).length)) = (true, 2) := by
+  decide
+
+/-- a queue event keyed by mode 1's light_player (0) and show_player (1) is held open; the mode stops during the hold;
+the entries of the snapshot are called afterwards: nothing is recorded.  Before the stop the same calls record two
+entries, a repeated play records nothing new, and the stop clears them. -/
+example :
+    (let s1 := run (init exCfg) [.start 1 none false true, .started 1, .startedCb 1, .cfgPlay 1 0, .cfgPlay 1 1, .cfgPlay 1 0,
+        .cfgPlay 1 100]
+     let s2 := run s1 [.stop 1, .stopped 1, .stoppedCb 1, .cfgPlay 1 0, .cfgPlay 1 1]
+     (s1.fx.length, s2.fx.length, s2.bus.length)) = (2, 0, 0) := by
+  decide
+
+/-- a conditional light_player entry (10) is true when the mode starts (played in `start()`), becomes false (removed) and
+true again; the stop clears it -/
+example :
+    (let s1 := run (init exCfg) [.start 1 none false true, .cfgSub 1 10 true]
+     let s2 := run s1 [.started 1, .startedCb 1, .cfgSub 1 10 false]
+     let s3 := run s2 [.cfgSub 1 10 true, .cfgSub 1 110 true, .stop 1, .stopped 1]
+     (s1.fx.length, s2.fx.length, s3.fx.length, (step s3 (.cfgSub 1 10 true)).isSome,
+      (run (init exCfg) [.start 1 none false true, .started 1, .cfgSub 1 10 true]).fx.length)) = (1, 0, 0, false, 1) := by
+  decide
+
+/-- a timer of mode 1 is started (periodic task 5) and paused (delay 6); the mode stops inside the pause: both are gone
+after the cleanup, and the device cannot schedule anything afterwards -/
+example :
+    (let s1 := run (init exCfg) [.start 1 none false true, .addTm 1 5, .started 1, .startedCb 1, .remTm 1 5, .addTm 1 6]
+     let s2 := run s1 [.stop 1, .stopped 1, .addTm 1 7, .stoppedCb 1]
+     (s1.tm.length, (run s1 [.stop 1, .stopped 1, .addTm 1 7]).tm.length, s2.tm.length,
+      (step s2 (.addTm 1 8)).isSome, (step s1 (.fireTm 1 6)).isSome)) = (1, 2, 0, false, true) := by
   decide
 
 /-- the turn ends while mode 1 is still starting: the one-shot handler is registered, and gone once the mode has
